@@ -218,7 +218,7 @@ Fixpoint enc1 (san : bool) (s : schema) (t : nat) (bare : bool) (ps : list N) (v
           match k with
           | AVector => if (n <? 4294967296) && sane_ok san n body then Some (nat_w n ++ body) else None
           | ATupleDyn => if (n =? nth 0 ps 0) && sane_ok san n body then Some body else None
-          | ATupleFixed c => if (n =? c) && sane_ok san n body then Some body else None
+          | ATupleFixed c => if n =? c then Some body else None   (* Go array [c]T: no sanity check on read *)
           end)
       | _ => None
       end
@@ -366,8 +366,7 @@ Fixpoint dec1 (fuel : nat) (san : bool) (s : schema) (t : nat) (bare : bool) (ps
           | ATupleDyn =>
               let n := nth 0 ps 0 in
               if san && negb (check_length_sanity b n 4) then Some Eof else elems n b
-          | ATupleFixed c =>
-              if san && negb (check_length_sanity b c 4) then Some Eof else elems c b
+          | ATupleFixed c => elems c b     (* constant size: generated as a Go array, no length-sanity check *)
           end
       | Some (TDict kp ef) =>
           if negb bare then Some Reject else
